@@ -6,8 +6,10 @@ import (
 	"strings"
 	"time"
 
+	"github.com/akrylysov/pogreb"
 	"github.com/akrylysov/pogreb/zzverif/explore"
 	"github.com/akrylysov/pogreb/zzverif/refmodel"
+	"github.com/akrylysov/pogreb/zzverif/simfs"
 )
 
 // C15: compaction reclaims space, nothing leaks, the database stays usable.
@@ -78,12 +80,62 @@ type c15Space struct {
 	Depth     int
 }
 
+// c15LargeSegments: the default thresholds (segments of at least 32 MiB with at least 50 % garbage) on segments
+// that really are that large: one key overwritten 48 times with 1 MiB values, Compact, twice. After each
+// Compact the directory must be bounded by the live data (2 x live + the 32 MiB below which a segment is never
+// picked + slack), i.e. the arithmetic of the eligibility test must survive real sizes.
+func c15LargeSegments(c *explore.Ctx) *explore.Violation {
+	mk := func(msg string) *explore.Violation {
+		return &explore.Violation{Key: "large-segments default thresholds", What: "default thresholds, one key overwritten 48 x 1 MiB then Compact (twice): " + msg, Size: 50,
+			Replay: map[string]interface{}{"kind": "large15", "observed": msg}}
+	}
+	fsys := simfs.New()
+	explore.PinSeed(0)
+	db, err := pogreb.Open(explore.DBPath, &pogreb.Options{FileSystem: fsys})
+	if err != nil {
+		return mk("Open: " + err.Error())
+	}
+	defer db.Close()
+	val := make([]byte, 1<<20)
+	for cycle := 1; cycle <= 2; cycle++ {
+		for i := 0; i < 48; i++ {
+			val[0], val[1] = byte(cycle), byte(i)
+			if err := db.Put([]byte("the-key"), val); err != nil {
+				return mk("Put: " + err.Error())
+			}
+			c.Add("transitions", 1)
+		}
+		before := fsys.TotalBytes(explore.DBPath)
+		cr, err := db.Compact()
+		if err != nil {
+			return mk("Compact: " + err.Error())
+		}
+		after := fsys.TotalBytes(explore.DBPath)
+		c.Outcome("large_segments", fmt.Sprintf("cycle %d: %d MiB -> %d MiB, %d segments compacted", cycle, before>>20, after>>20, cr.CompactedSegments))
+		if limit := int64(2<<20 + 32<<20 + 2<<20); after > limit {
+			return mk(fmt.Sprintf("after Compact #%d the directory holds %d MiB for 1 MiB of live data (%d MiB before; %d segments compacted): garbage in large segments is not reclaimed", cycle, after>>20, before>>20, cr.CompactedSegments))
+		}
+		v, err := db.Get([]byte("the-key"))
+		if err != nil || len(v) != len(val) || v[0] != byte(cycle) || v[1] != 47 {
+			return mk("the value does not read back after Compact")
+		}
+	}
+	return nil
+}
+
 func runC15(c *explore.Ctx) {
+	if c.Mine() {
+		c.Add("executions", 1)
+		if v := c15LargeSegments(c); v != nil {
+			c.Violation(*v)
+			return
+		}
+	}
 	var spaces []c15Space
 	if c.Thorough() {
-		spaces = []c15Space{{"E", "ROLL", 6}, {"E", "ROLL1", 6}, {"S2", "ROLL", 5}, {"E", "BIGC", 5}, {"S3", "ROLL", 4}}
+		spaces = []c15Space{{"E", "ROLL", 6}, {"E", "ROLL1", 6}, {"S2", "ROLL", 5}, {"E", "BIGC", 5}, {"S3", "ROLL", 4}, {"LG", "ROLL", 4}}
 	} else {
-		spaces = []c15Space{{"E", "ROLL", 4}, {"E", "ROLL1", 4}, {"S2", "ROLL", 3}, {"E", "BIGC", 4}}
+		spaces = []c15Space{{"E", "ROLL", 4}, {"E", "ROLL1", 4}, {"S2", "ROLL", 3}, {"E", "BIGC", 4}, {"LG", "ROLL", 3}}
 	}
 	for _, sp := range spaces {
 		if c.Expired() || c.NViolations() > 0 {
